@@ -180,6 +180,55 @@ static bool sv_op(const std::vector<std::string> &op, const std::string &ra, con
     std::string bz = rb;
     out            = b01(a == bz.c_str());
   }
+  else if (n == "cmp3c" && op.size() == 3)
+  {
+    // compare(pos, n, const char*)
+    if (!size_tok(op[1], p1) || !size_tok(op[2], n1)) return false;
+    std::string bz = rb;
+    try
+    {
+      out = sign(a.compare(p1, n1, bz.c_str()));
+    }
+    catch (const std::out_of_range &)
+    {
+      out = "oor";
+    }
+  }
+  else if (n == "cmp4c" && op.size() == 4)
+  {
+    // compare(pos, n, const char*, count2): the first count2 bytes of b (embedded NULs included)
+    if (!size_tok(op[1], p1) || !size_tok(op[2], n1) || !size_tok(op[3], n2) || n2 > xb.size()) return false;
+    try
+    {
+      out = sign(a.compare(p1, n1, xb.data(), n2));
+    }
+    catch (const std::out_of_range &)
+    {
+      out = "oor";
+    }
+  }
+  else if (n == "nes" && op.size() == 1)
+  {
+    std::string sa = ra, sb = rb;
+    out = b01(a != sb) + b01(sa != b);
+  }
+  else if (n == "nec" && op.size() == 1)
+  {
+    std::string bz = rb;
+    out            = b01(a != bz.c_str()) + b01(bz.c_str() != a);
+  }
+  else if (n == "ceq" && op.size() == 1)
+  {
+    std::string bz = rb;
+    out            = b01(bz.c_str() == a);
+  }
+  else if (n == "dflt" && op.size() == 1)
+  {
+    SV d;  // default-constructed: empty, no data
+    SV e(xa.data(), 0);
+    out = std::to_string(d.size()) + (d.empty() ? "e" : "n") + (d.data() == nullptr ? "" : "!") + sign(a.compare(d)) +
+          b01(d == e);
+  }
   else if (n == "os" && op.size() == 1)
   {
     std::ostringstream os;
@@ -274,6 +323,44 @@ static std::string convfix_span(uint8_t *p)
   nostd::span<const uint8_t> d2(cf);
   if (cf.data() != p || d.data() != p || d2.size() != N) return "conversion-differs";
   return show_span(d);
+}
+
+template <size_t N>
+static std::string cfix_span(const std::vector<uint8_t> &base)
+{
+  std::vector<uint8_t> v(base);
+  const std::vector<uint8_t> &cv = v;
+  if (v.size() != N)
+  {
+    bool died = dies([&] {
+      nostd::span<const uint8_t, N> s(cv);
+      (void)s;
+    });
+    bool died2 = dies([&] {
+      nostd::span<uint8_t, N> s(v);
+      (void)s;
+    });
+    return died && died2 ? "terminate" : "no-terminate";
+  }
+  nostd::span<const uint8_t, N> s(cv);
+  nostd::span<uint8_t, N> m(v);
+  if (N && (s.data() != v.data() || m.data() != v.data())) return "container-ctor-differs";
+  return show_span(s);
+}
+
+template <size_t N>
+static std::string getf_span(const uint8_t *p, size_t i)
+{
+  nostd::span<const uint8_t, N> s(p, N);
+  if (i < N)
+  {
+    char ch = static_cast<char>(s[i]);
+    return vh::to_hex(&ch, 1);
+  }
+  volatile uint8_t sink = 0;
+  bool died             = dies([&] { sink = s[i]; });
+  (void)sink;
+  return died ? "oob" : "no-check";
 }
 
 static bool sp_op(const std::vector<std::string> &op, std::vector<uint8_t> &base, std::string &x, std::string &y)
@@ -409,6 +496,73 @@ static bool sp_op(const std::vector<std::string> &op, std::vector<uint8_t> &base
     }
     return true;
   }
+  if (n == "cfix" && op.size() == 2)
+  {
+    // static extent from a container: the sizes must match, else terminate
+    if (!size_tok(op[1], N)) return false;
+    y = base.size() == N ? Slice{&base, 0, base.size()}.show() : "terminate";
+    switch (N)
+    {
+      case 0: x = cfix_span<0>(base); break;
+      case 1: x = cfix_span<1>(base); break;
+      case 2: x = cfix_span<2>(base); break;
+      case 3: x = cfix_span<3>(base); break;
+      case 4: x = cfix_span<4>(base); break;
+      case 8: x = cfix_span<8>(base); break;
+      default: return false;
+    }
+    return true;
+  }
+  if (n == "getf" && op.size() == 4)
+  {
+    // operator[] of a static-extent span
+    if (!size_tok(op[1], N) || !size_tok(op[2], off) || !size_tok(op[3], i) || !in(off, N)) return false;
+    Slice sl{&base, off, N};
+    uint8_t c = 0;
+    y         = sl.get(i, c) ? vh::to_hex(reinterpret_cast<char *>(&c), 1) : "oob";
+    switch (N)
+    {
+      case 0: x = getf_span<0>(p + off, i); break;
+      case 1: x = getf_span<1>(p + off, i); break;
+      case 2: x = getf_span<2>(p + off, i); break;
+      case 3: x = getf_span<3>(p + off, i); break;
+      case 4: x = getf_span<4>(p + off, i); break;
+      case 8: x = getf_span<8>(p + off, i); break;
+      default: return false;
+    }
+    return true;
+  }
+  if ((n == "arr2" || n == "util") && op.size() == 1)
+  {
+    if (base.size() < 4) return false;
+    y = Slice{&base, 0, 4}.show();
+    if (n == "arr2")
+    {
+      // the std::array constructors proper: T = element type of the array, dynamic and static extent
+      std::array<uint8_t, 4> a{{p[0], p[1], p[2], p[3]}};
+      const std::array<const uint8_t, 4> ca{{p[0], p[1], p[2], p[3]}};
+      nostd::span<uint8_t> d(a);
+      nostd::span<const uint8_t> cd(ca);
+      nostd::span<const uint8_t, 4> cf(ca);
+      nostd::span<const uint8_t> dd(cf);
+      bool ok = d.data() == a.data() && d.size() == 4 && cd.data() == ca.data() && cd.size() == 4 && cf.data() == ca.data() &&
+                dd.size() == 4 && show_span(d) == show_span(cd);
+      x = ok ? show_span(cf) : "array-ctor-differs";
+    }
+    else
+    {
+      // nostd::data / nostd::size (what the container constructors are built on) against std::data / std::size
+      uint8_t a[4] = {p[0], p[1], p[2], p[3]};
+      std::initializer_list<uint8_t> il{p[0], p[1], p[2], p[3]};
+      std::vector<uint8_t> v(base.begin(), base.begin() + 4);
+      const std::vector<uint8_t> &cv = v;
+      bool ok = nostd::data(a) == std::data(a) && nostd::size(a) == std::size(a) && nostd::data(il) == std::data(il) &&
+                nostd::data(v) == std::data(v) && nostd::data(cv) == std::data(cv) && nostd::size(v) == std::size(v);
+      nostd::span<const uint8_t> s(nostd::data(il), il.size());
+      x = ok ? show_span(s) : "data-size-differ";
+    }
+    return true;
+  }
   if (n == "default" && op.size() == 1)
   {
     nostd::span<const uint8_t> s;
@@ -451,9 +605,14 @@ struct P
     r->dtor.push_back(0);
     r->id_of[this] = id;
   }
-  ~P() { reg->dtor[static_cast<size_t>(id)]++; }
+  virtual ~P() { reg->dtor[static_cast<size_t>(id)]++; }
   P(const P &)            = delete;
   P &operator=(const P &) = delete;
+};
+// a derived payload: handles of the base type built from / assigned from handles of the derived type (`.d` variants)
+struct D : public P
+{
+  explicit D(Registry *r) : P(r) {}
 };
 
 template <class H>
@@ -516,6 +675,7 @@ static std::string show_target(H &h, const Registry &r)
   const P *p = h.get();
   bool b     = static_cast<bool>(h);
   if ((p != nullptr) != b || (h == nullptr) != (p == nullptr) || (nullptr != h) != (p != nullptr)) return "bool-differs";
+  if ((nullptr == h) != (p == nullptr) || (h != nullptr) != (p != nullptr)) return "bool-differs";
   if (p == nullptr) return "null";
   if (&*h != p) return "deref-differs";
   return "o" + std::to_string(h->id);  // reads the object: a dangling handle is an ASan report
@@ -525,12 +685,16 @@ struct NostdFamily
 {
   using SP = nostd::shared_ptr<P>;
   using UP = nostd::unique_ptr<P>;
+  using SD = nostd::shared_ptr<D>;
+  using UD = nostd::unique_ptr<D>;
   static const bool is_nostd = true;
 };
 struct StdFamily
 {
   using SP = std::shared_ptr<P>;
   using UP = std::unique_ptr<P>;
+  using SD = std::shared_ptr<D>;
+  using UD = std::unique_ptr<D>;
   static const bool is_nostd = false;
 };
 
@@ -551,6 +715,14 @@ struct SharedMachine
 
   void construct_p(size_t h, const std::string &var)
   {
+    if (var == "d")
+    {
+      // converting move construction from a handle of the derived type
+      typename F::SD d(new D(&reg));
+      new (sl.cells[h].buf) SP(std::move(d));
+      sl.cells[h].alive = true;
+      return;
+    }
     P *p = new P(&reg);
     if (var == "u") new (sl.cells[h].buf) SP(typename F::UP(p));  // from (nostd::)unique_ptr &&
     else if (var == "su") new (sl.cells[h].buf) SP(std::unique_ptr<P>(p));
@@ -573,7 +745,7 @@ struct SharedMachine
         new (sl.cells[h].buf) SP();
         sl.cells[h].alive = true;
       }
-      else if (name == "ctorp" && (var.empty() || var == "u" || var == "su" || var == "ss"))
+      else if (name == "ctorp" && (var.empty() || var == "u" || var == "su" || var == "ss" || var == "d"))
       {
         if (!sl.vacant(h)) return false;
         construct_p(h, var);
@@ -680,10 +852,11 @@ struct UniqueMachine
         else new (sl.cells[h].buf) UP();
         sl.cells[h].alive = true;
       }
-      else if (name == "ctorp" && (var.empty() || var == "su"))
+      else if (name == "ctorp" && (var.empty() || var == "su" || var == "d"))
       {
         if (!sl.vacant(h)) return false;
-        if (var == "su") new (sl.cells[h].buf) UP(std::unique_ptr<P>(new P(&reg)));
+        if (var == "d") new (sl.cells[h].buf) UP(typename F::UD(new D(&reg)));  // converting move construction
+        else if (var == "su") new (sl.cells[h].buf) UP(std::unique_ptr<P>(new P(&reg)));
         else new (sl.cells[h].buf) UP(new P(&reg));
         sl.cells[h].alive = true;
       }
@@ -697,10 +870,11 @@ struct UniqueMachine
         if (!sl.alive(h)) return false;
         sl[h] = nullptr;
       }
-      else if (name == "asgp" && (var.empty() || var == "su"))
+      else if (name == "asgp" && (var.empty() || var == "su" || var == "d"))
       {
         if (!sl.alive(h)) return false;
-        if (var == "su") sl[h] = std::unique_ptr<P>(new P(&reg));
+        if (var == "d") sl[h] = typename F::UD(new D(&reg));  // converting move assignment
+        else if (var == "su") sl[h] = std::unique_ptr<P>(new P(&reg));
         else sl[h] = UP(new P(&reg));
       }
       else if (name == "reset" && var.empty())
@@ -866,6 +1040,21 @@ struct NostdVar
   {
     return nostd::holds_alternative<T>(v);
   }
+  template <class T>
+  static const T &get_t(const V &v)
+  {
+    return nostd::get<T>(v);
+  }
+  template <class T>
+  static const T *get_if_t(const V *v)
+  {
+    return nostd::get_if<T>(v);
+  }
+  template <size_t I>
+  static auto cget(const V &v) -> decltype(nostd::get<I>(v))
+  {
+    return nostd::get<I>(v);
+  }
   static std::string visit(const V &v) { return nostd::visit(ShowVisitor{}, v); }
   template <class Fn>
   static bool access(Fn f)
@@ -899,6 +1088,21 @@ struct StdVar
   static bool holds(const V &v)
   {
     return std::holds_alternative<T>(v);
+  }
+  template <class T>
+  static const T &get_t(const V &v)
+  {
+    return std::get<T>(v);
+  }
+  template <class T>
+  static const T *get_if_t(const V *v)
+  {
+    return std::get_if<T>(v);
+  }
+  template <size_t I>
+  static auto cget(const V &v) -> decltype(std::get<I>(v))
+  {
+    return std::get<I>(v);
   }
   static std::string visit(const V &v) { return std::visit(ShowVisitor{}, v); }
   template <class Fn>
@@ -934,6 +1138,29 @@ struct VarMachine
   {
     std::string out;
     bool ok = F::access([&] { out = show_alt(F::template get<I>(v)); });
+    return ok ? out : "bad_access";
+  }
+  // selection by TYPE (get<T> / get_if<T>) and by index on a const variant: the same answers as get<I> / get_if<I>
+  template <class T>
+  std::string get_t()
+  {
+    std::string out;
+    bool ok = F::access([&] { out = show_alt(F::template get_t<T>(v)); });
+    return ok ? out : "bad_access";
+  }
+  template <class T>
+  std::string getif_t()
+  {
+    const typename F::V &cv = v;
+    auto *p                 = F::template get_if_t<T>(&cv);
+    return p ? show_alt(*p) : "null";
+  }
+  template <size_t I>
+  std::string cget_i()
+  {
+    std::string out;
+    const typename F::V &cv = v;
+    bool ok                 = F::access([&] { out = show_alt(F::template cget<I>(cv)); });
     return ok ? out : "bad_access";
   }
   template <size_t I>
@@ -973,6 +1200,18 @@ struct VarMachine
                            : F::template holds<std::string>(v));
       return true;
     }
+    if ((op[0] == "gett" || op[0] == "getift" || op[0] == "cget") && op.size() == 2)
+    {
+      using Mono = typename F::Mono;
+      if (!small_tok(op[1], i) || i >= 4) return false;
+      if (op[0] == "gett")
+        out = i == 0 ? get_t<Mono>() : i == 1 ? get_t<bool>() : i == 2 ? get_t<int64_t>() : get_t<std::string>();
+      else if (op[0] == "getift")
+        out = i == 0 ? getif_t<Mono>() : i == 1 ? getif_t<bool>() : i == 2 ? getif_t<int64_t>() : getif_t<std::string>();
+      else
+        out = i == 0 ? cget_i<0>() : i == 1 ? cget_i<1>() : i == 2 ? cget_i<2>() : cget_i<3>();
+      return true;
+    }
     if (op[0] == "index" && op.size() == 1)
     {
       out = std::to_string(v.index());
@@ -981,6 +1220,16 @@ struct VarMachine
     if (op[0] == "visit" && op.size() == 1)
     {
       out = F::visit(v);
+      return true;
+    }
+    if (op[0] == "move" && op.size() == 1)
+    {
+      // move construction and move assignment of a copy: the value arrives, v itself is left alone
+      typename F::V c0(v);
+      typename F::V c(std::move(c0));
+      typename F::V d;
+      d   = std::move(c);
+      out = d.index() == 0 ? "m" : d.index() == 1 ? show_alt(F::template get<1>(d)) : d.index() == 2 ? show_alt(F::template get<2>(d)) : show_alt(F::template get<3>(d));
       return true;
     }
     if (op[0] == "copy" && op.size() == 1)
@@ -1025,6 +1274,22 @@ static bool fr_op(const std::vector<std::string> &op, std::string &out)
   {
     FR f(nullptr);
     out = b01(static_cast<bool>(f));
+    return true;
+  }
+  if (op[0] == "nullfp" && op.size() == 1)
+  {
+    int64_t (*fp)(int64_t) = nullptr;  // a null function pointer binds to nothing
+    FR f(fp);
+    out = b01(static_cast<bool>(f));
+    return true;
+  }
+  if (op[0] == "callp" && op.size() == 2)
+  {
+    int64_t x;
+    if (!int_tok(op[1], x) || x < -1000000 || x > 1000000) return false;
+    int64_t (*fp)(int64_t) = plus1;  // a function pointer object (not the function itself)
+    FR f(fp);
+    out = std::to_string(static_cast<long long>(f(x))) + "/" + b01(static_cast<bool>(f));
     return true;
   }
   if ((op[0] == "call" || op[0] == "copy") && op.size() == 3)
